@@ -159,7 +159,11 @@ ReplaceAmountCases(tier) ==
             sigma |-> <<ba, bb, nl>>, lo |-> 1, hi |-> IF tier = "quick" THEN 4 ELSE 5]]
 
 CasesOf(fam, tier) ==
-  CASE fam = "C01"  -> LET A == BodySeqCases(C01_Bodies(tier), tier)
+  CASE fam = "C01"  -> LET A0 == BodySeqCases(C01_Bodies(tier), tier)
+                           \* the depth-3 bodies of the thorough tier run on the shorter texts
+                           A == [i \in 1..Len(A0) |-> IF tier = "thorough" /\ A0[i].cmds[1].body \in C01_Deep
+                                                       THEN [A0[i] EXCEPT !.hi = LenFor({A0[i].sigma[j] : j \in 1..Len(A0[i].sigma)}, "quick")]
+                                                       ELSE A0[i]]
                            Gc == GlobalSeqCases(C01_GlobalCases, tier, Len(A))
                        IN [i \in 1..Len(A) |-> WithReplace(A[i], 7)] \o Gc \o ClassTableCases(Len(A) + Len(Gc))
     [] fam = "C02"  -> BodySeqCases(C02_Bodies, tier)
